@@ -228,9 +228,23 @@ def check_unit(rows, lang, lo=None, hi=None):
     return out
 
 
+def check_storable(rows, lang):
+    """An attribute value that is a container cannot be stored: the loader builds one pandas column per
+    attribute and pyarrow refuses the column ("Expected bytes, got a 'tuple' object"), the lang sub-command
+    prints that line, leaves frontend/gir.bundle* EMPTY for the whole project and ends normally."""
+    out = []
+    seen = set()
+    for name, tname in nonscalar_attributes(rows):
+        if name in seen or name.split(".")[-1] in ALWAYS_BODY_ATTRS:
+            continue        # (bodies: reported by clause 3)
+        seen.add(name)
+        out.append((sig(lang, "0:attribute-value-not-storable", name),
+                    "attribute %s holds a %s: frontend/gir.bundle* cannot be written with such a row" % (name, tname)))
+    return out
+
+
 def nonscalar_attributes(rows):
-    """(operation.attribute, type name) of attribute values that are containers.  Not demanded by C03 (the
-    statement speaks about ids, blocks, bodies and methods); counted as an observation only."""
+    """(operation.attribute, type name) of attribute values that are containers."""
     out = []
     for r in rows or ():
         if isinstance(r, dict):
